@@ -356,6 +356,15 @@ static int do_state(const jv *line)
     return 1;
 }
 
+/* how often each call was replayed, and how often it changed the state (vacuity control in the evidence) */
+static struct { char name[48]; long n, changed; } actcnt[80]; static int nact;
+static void count_action(const char *a, int changed)
+{
+    int i;
+    for (i = 0; i < nact; i++) if (!strcmp(actcnt[i].name, a)) break;
+    if (i == nact) { if (nact == 80) return; snprintf(actcnt[nact].name, sizeof(actcnt[nact].name), "%s", a); nact++; }
+    actcnt[i].n++; if (changed) actcnt[i].changed++;
+}
 int vd_tree_main(int argc, char **argv);
 int vd_tree_main(int argc, char **argv)
 {
@@ -381,7 +390,7 @@ int vd_tree_main(int argc, char **argv)
             if (rc > 0) {
                 const jv *pre = jv_at(v, 2), *post = jv_at(jv_at(jv_at(v, 3), 0), 0);
                 /* non-trivial: the call changes the state */
-                { char b1[8192], b2[8192]; FILE *f1 = fmemopen(b1, sizeof(b1), "w"), *f2 = fmemopen(b2, sizeof(b2), "w"); jv_print(f1, pre); jv_print(f2, post); fclose(f1); fclose(f2); if (strcmp(b1, b2) != 0) { changed++; VD.nontrivial++; } }
+                { char b1[8192], b2[8192]; FILE *f1 = fmemopen(b1, sizeof(b1), "w"), *f2 = fmemopen(b2, sizeof(b2), "w"); jv_print(f1, pre); jv_print(f2, post); fclose(f1); fclose(f2); if (strcmp(b1, b2) != 0) { changed++; VD.nontrivial++; } count_action(jv_at(jv_at(v, 1), 0)->s, strcmp(b1, b2) != 0); }
             }
         } else { sl++; rc = do_state(v); if (rc > 0) VD.nontrivial++; }
         if (rc < 0) { fprintf(stderr, "vdrv: cannot interpret line: %s\n", copy); free(copy); return 2; }
@@ -389,8 +398,12 @@ int vd_tree_main(int argc, char **argv)
         vd_tick();
         VD.curline = NULL; free(copy);
     }
-    snprintf(extra, sizeof(extra), "\"t_lines\": %ld, \"s_lines\": %ld, \"state_changing\": %ld", tl, sl, changed);
-    if (stats) vd_write_stats(stats, extra);
+    { static char big[8192]; size_t n = 0; int i;
+      n += (size_t)snprintf(big + n, sizeof(big) - n, "\"t_lines\": %ld, \"s_lines\": %ld, \"state_changing\": %ld, \"other_property_violations\": %ld, \"per_action\": {", tl, sl, changed, VD.by_kind[0]);
+      for (i = 0; i < nact && n < sizeof(big) - 100; i++) n += (size_t)snprintf(big + n, sizeof(big) - n, "%s\"%s\": \"%ld:%ld\"", i ? ", " : "", actcnt[i].name, actcnt[i].changed, actcnt[i].n);
+      snprintf(big + n, sizeof(big) - n, "}");
+      (void)extra;
+      if (stats) vd_write_stats(stats, big); }
     return VD.violations ? 1 : 0;
 }
 
